@@ -1095,6 +1095,12 @@ pub fn check_threaded(case: &ThreadedCase) -> CaseResult {
 pub mod sessions;
 
 // ------------------------------------------------------------------------------------------------
+// ParallelExecutor (feature `parallel`)
+// ------------------------------------------------------------------------------------------------
+
+pub mod parallel_executor;
+
+// ------------------------------------------------------------------------------------------------
 // run
 // ------------------------------------------------------------------------------------------------
 
@@ -1108,7 +1114,12 @@ pub fn run(r: &mut Run) {
               transactions, <=2 entities (all shorter ones are prefixes), non-trivial by the same rule. threaded: 2-8 threads x 2 \
               rounds behind barriers, non-trivial = overlapping write sets within round 1 and across rounds. sessions: 2-3 sessions \
               updating 1-2 nodes through GQL, non-trivial = two sessions whose transactions overlap both SET the same node and \
-              both reach commit."
+              both reach commit. parallel_executor: batches of 1-12 requests over <=6 entities run by ParallelExecutor::execute_batch \
+              with 1-8 workers; the closure is a multi-version memory keyed by (entity, batch index) with generated read sets, write \
+              sets, value-dependent writes and failures; a case-level density decides which share of requests keeps its read set, so \
+              that all three executor paths (no conflict / re-execution / sequential fallback) are taken; oracle = the same requests \
+              executed in batch order. Non-trivial = >=4 requests and some request reads an entity an earlier request may write; \
+              distinct by hash of the case."
         .into();
     r.assumptions.push("a refused commit leaves the transaction Active (implementation behaviour; the property does not fix the terminal state)".into());
     r.assumptions.push("overlap is decided by history order (commit position after begin position), epochs are checked to agree with it".into());
@@ -1141,4 +1152,6 @@ pub fn run(r: &mut Run) {
     r.subcheck("threaded", r.cases(1_500, 60_000), move || threaded_strategy(max_threads), check_threaded);
 
     sessions::run_c03(r);
+
+    parallel_executor::run(r);
 }
